@@ -21,7 +21,7 @@ def finish(ctx, summaries, extra_coverage=None, extra_assumptions=()):
     known = [k for k in load_known() if k.get("property") == prop and k.get("status") == "known"]
     os.makedirs(os.path.join(VERIF, "evidence"), exist_ok=True)
     os.makedirs(os.path.join(VERIF, "replays"), exist_ok=True)
-    n_goals = n_triv = n_unsat = n_sat = n_unknown = n_skipped = 0
+    n_goals = n_triv = n_unsat = n_sat = n_unknown = n_skipped = n_tol = 0
     hashes = set()
     solver_time = 0.0
     queries = 0
@@ -91,6 +91,8 @@ def finish(ctx, summaries, extra_coverage=None, extra_assumptions=()):
                                     "solver": r.get("solver"), "time_s": r.get("time_s"), "bounds": job.bounds})
             elif v == "skipped":
                 n_skipped += 1
+            elif v == "tolerance":
+                n_tol += 1
             elif v == "unknown":
                 n_unknown += 1
                 errors_tag = "[%s] inconclusive: %s" % (job.name, r["goal"])
@@ -159,7 +161,8 @@ def finish(ctx, summaries, extra_coverage=None, extra_assumptions=()):
                 "functions on symbolic inputs, on one explored path); distinct_nontrivial = obligations, deduplicated by "
                 "the hash of their SMT-LIB text, whose goal did not fold to `true` syntactically and so reached a solver",
         "samples": samples or [{"note": "no non-trivial obligation was discharged in this run"}],
-        "obligations": n_goals, "discharged": n_triv + n_unsat, "discharged_by_solver": n_unsat,
+        "obligations": n_goals, "discharged": n_triv + n_unsat + n_tol,
+        "discharged_within_tolerance_1e-3_on_a_tolerance_branch": n_tol, "discharged_by_solver": n_unsat,
         "folded_trivially": n_triv, "sat": n_sat, "known_finding_obligations": sum(c for _, c in known_hits.values()),
         "skipped_after_first_violation_in_group": n_skipped,
         "inconclusive": n_unknown, "paths": paths, "fork_feasibility_queries": fork_q,
